@@ -139,7 +139,16 @@ impl Hyphenator {
                 State::AfterScore => 0,
             };
             self.data.push(terminal_op + num_zeros * 16);
-            *value = Some(trie::Value(data_start));
+            // A pattern of the shape `.word.` shares its trie vertex with a hyphenation exception
+            // for that word. The exception (its ops start with an exception score) always wins,
+            // whichever was loaded first: never replace it.
+            let holds_exception = matches!(
+                *value,
+                Some(trie::Value(i)) if self.data[i] % 16 >= EXCEPTION_NO_HYPHEN
+            );
+            if !holds_exception {
+                *value = Some(trie::Value(data_start));
+            }
         }
     }
     /// Add multiple hyphenation exceptions. These are separate words separated by whitespace, with
